@@ -60,3 +60,14 @@ def orf_tables(repo: Path) -> str:
             f"def stopCodons : List (List Char) := [{', '.join(_lean_chars(c) for c in stops)}]\n"
             f"def complementPairs : List (Char × Char) := [{comp}]\n"
             "end ASV.Orf.Gen\n")
+
+
+
+@table("C13Docking")
+def c13_docking(repo: Path) -> str:
+    """the local `dockingdomains` set of filter_nonterminal_docking_domains"""
+    names = sorted(literal(repo / "antismash/detection/nrps_pks_domains/domain_identification.py",
+                           "dockingdomains", within="filter_nonterminal_docking_domains"))
+    return ("namespace ASV.Generated\n"
+            f"def dockingDomains : List String := {lean_str_list(names)}\n"
+            "end ASV.Generated\n")
